@@ -418,4 +418,210 @@ theorem alookup_groupWritten (P : List (Name × Name)) (GA : List (Name × Optio
       | none => simp only [alookup, e, ↓reduceIte]; exact ih
       | some pv => simp only [alookup, e, ↓reduceIte]; exact ih
 
+/-! ### the reader's coordinate-variable search; group attributes with globals -/
+
+theorem firstMax_none {l : List Path} : firstMax l = none ↔ l = [] := by
+  cases l with
+  | nil => simp [firstMax]
+  | cons c cs =>
+    simp only [firstMax]
+    cases firstMax cs with
+    | none => simp
+    | some m => by_cases h : m.length > c.length <;> simp [h]
+
+theorem firstMax_some {l : List Path} {m : Path} (h : firstMax l = some m) :
+    m ∈ l ∧ ∀ c ∈ l, c.length ≤ m.length := by
+  induction l generalizing m with
+  | nil => simp [firstMax] at h
+  | cons c cs ih =>
+    simp only [firstMax] at h
+    cases hm : firstMax cs with
+    | none =>
+      have : cs = [] := firstMax_none.mp hm
+      simp only [hm, Option.some.injEq] at h
+      subst h; subst this
+      simp
+    | some m' =>
+      obtain ⟨h1, h2⟩ := ih hm
+      simp only [hm] at h
+      by_cases hc : m'.length > c.length
+      · simp only [hc, ↓reduceIte, Option.some.injEq] at h
+        subst h
+        refine ⟨by simp [h1], ?_⟩
+        intro x hx
+        rcases List.mem_cons.mp hx with rfl | hx
+        · omega
+        · exact h2 x hx
+      · simp only [hc, ↓reduceIte, Option.some.injEq] at h
+        subst h
+        refine ⟨by simp, ?_⟩
+        intro x hx
+        rcases List.mem_cons.mp hx with rfl | hx
+        · omega
+        · have := h2 x hx; omega
+
+theorem firstMin_none {l : List Path} : firstMin l = none ↔ l = [] := by
+  cases l with
+  | nil => simp [firstMin]
+  | cons c cs =>
+    simp only [firstMin]
+    cases firstMin cs with
+    | none => simp
+    | some m => by_cases h : m.length < c.length <;> simp [h]
+
+theorem firstMin_some {l : List Path} {m : Path} (h : firstMin l = some m) :
+    m ∈ l ∧ ∀ c ∈ l, m.length ≤ c.length := by
+  induction l generalizing m with
+  | nil => simp [firstMin] at h
+  | cons c cs ih =>
+    simp only [firstMin] at h
+    cases hm : firstMin cs with
+    | none =>
+      have : cs = [] := firstMin_none.mp hm
+      simp only [hm, Option.some.injEq] at h
+      subst h; subst this
+      simp
+    | some m' =>
+      obtain ⟨h1, h2⟩ := ih hm
+      simp only [hm] at h
+      by_cases hc : m'.length < c.length
+      · simp only [hc, ↓reduceIte, Option.some.injEq] at h
+        subst h
+        refine ⟨by simp [h1], ?_⟩
+        intro x hx
+        rcases List.mem_cons.mp hx with rfl | hx
+        · omega
+        · exact h2 x hx
+      · simp only [hc, ↓reduceIte, Option.some.injEq] at h
+        subst h
+        refine ⟨by simp, ?_⟩
+        intro x hx
+        rcases List.mem_cons.mp hx with rfl | hx
+        · omega
+        · have := h2 x hx; omega
+
+/-- `c` is a candidate: a same-named variable spanning the dimension, in the dimension's group
+or below it. -/
+def IsCand (dg : Path) (cs : List Path) (c : Path) : Prop := c ∈ cs ∧ dg <+: c
+
+/-- CF 2.7.1 for the coordinate variable of a dimension: the candidate nearest to the data
+variable among its own group and its ancestors (proximal); if there is none there, the
+candidate strictly nearest to the local apex (lateral, unambiguous). -/
+def Designated (fg dg : Path) (cs : List Path) (q : Path) : Prop :=
+  IsCand dg cs q ∧
+  ((q <+: fg ∧ ∀ c, IsCand dg cs c → c <+: fg → c.length ≤ q.length) ∨
+   ((∀ c, IsCand dg cs c → ¬ c <+: fg) ∧ ∀ c, IsCand dg cs c → c ≠ q → q.length < c.length))
+
+theorem findCoordVar_spec (apexVar : Bool) (fg dg : Path) (cs : List Path)
+    (hnd : cs.Nodup) (hapex : apexVar = true → dg ∈ cs) :
+    (∀ q, findCoordVar apexVar fg dg cs = some q → Designated fg dg cs q) ∧
+    (findCoordVar apexVar fg dg cs = none → ∀ q, ¬ Designated fg dg cs q) := by
+  unfold findCoordVar
+  by_cases hs : (apexVar && fg == dg) = true
+  · simp only [hs, ↓reduceIte, Option.some.injEq, reduceCtorEq, false_imp_iff, and_true]
+    simp only [Bool.and_eq_true, beq_iff_eq] at hs
+    obtain ⟨ha, hfg⟩ := hs
+    rintro q rfl
+    refine ⟨⟨hapex ha, List.prefix_refl _⟩, Or.inl ⟨by rw [hfg]; exact List.prefix_refl _, ?_⟩⟩
+    intro c _ hc
+    rw [hfg] at hc
+    exact List.IsPrefix.length_le hc
+  · simp only [hs, Bool.false_eq_true, ↓reduceIte]
+    -- membership in the three filtered lists
+    have mem_cands : ∀ c, c ∈ cs.filter (fun c => dg.isPrefixOf c) ↔ IsCand dg cs c := by
+      intro c; simp [IsCand, List.mem_filter]
+    have mem_prox : ∀ c, c ∈ (cs.filter (fun c => dg.isPrefixOf c)).filter (fun c => c.isPrefixOf fg) ↔
+        (IsCand dg cs c ∧ c <+: fg) := by
+      intro c; rw [List.mem_filter, mem_cands]; simp
+    have mem_lat : ∀ c, c ∈ (cs.filter (fun c => dg.isPrefixOf c)).filter (fun c => !c.isPrefixOf fg) ↔
+        (IsCand dg cs c ∧ ¬ c <+: fg) := by
+      intro c; rw [List.mem_filter, mem_cands]
+      simp [← List.isPrefixOf_iff_prefix]
+    have nd_lat : ((cs.filter (fun c => dg.isPrefixOf c)).filter (fun c => !c.isPrefixOf fg)).Nodup :=
+      (hnd.filter _).filter _
+    cases hp : firstMax ((cs.filter (fun c => dg.isPrefixOf c)).filter (fun c => c.isPrefixOf fg)) with
+    | some q0 =>
+      simp only [Option.some.injEq, reduceCtorEq, false_imp_iff, and_true]
+      rintro q rfl
+      obtain ⟨h1, h2⟩ := firstMax_some hp
+      obtain ⟨hc, hpre⟩ := (mem_prox _).mp h1
+      exact ⟨hc, Or.inl ⟨hpre, fun c hcc hcp => h2 c ((mem_prox c).mpr ⟨hcc, hcp⟩)⟩⟩
+    | none =>
+      have hnoprox : ∀ c, IsCand dg cs c → ¬ c <+: fg := by
+        intro c hc hcp
+        have := firstMax_none.mp hp
+        have hm := (mem_prox c).mpr ⟨hc, hcp⟩
+        rw [this] at hm; simp at hm
+      simp only
+      cases hl : firstMin ((cs.filter (fun c => dg.isPrefixOf c)).filter (fun c => !c.isPrefixOf fg)) with
+      | none =>
+        simp only [reduceCtorEq, false_imp_iff, implies_true, true_and, forall_const]
+        intro q hq
+        have := firstMin_none.mp hl
+        have hm := (mem_lat q).mpr ⟨hq.1, hnoprox q hq.1⟩
+        rw [this] at hm; simp at hm
+      | some a =>
+        obtain ⟨ha1, ha2⟩ := firstMin_some hl
+        obtain ⟨hac, _⟩ := (mem_lat a).mp ha1
+        simp only
+        cases he : firstMin (((cs.filter (fun c => dg.isPrefixOf c)).filter (fun c => !c.isPrefixOf fg)).erase a) with
+        | none =>
+          simp only [Option.some.injEq, reduceCtorEq, false_imp_iff, and_true]
+          rintro q rfl
+          refine ⟨hac, Or.inr ⟨hnoprox, ?_⟩⟩
+          intro c hc hne
+          have hm := (mem_lat c).mpr ⟨hc, hnoprox c hc⟩
+          have := (List.mem_erase_of_ne hne).mpr hm
+          rw [firstMin_none.mp he] at this; simp at this
+        | some b =>
+          obtain ⟨hb1, hb2⟩ := firstMin_some he
+          have hbne : b ≠ a := ((List.Nodup.mem_erase_iff nd_lat).mp hb1).1
+          have hbl := List.mem_of_mem_erase hb1
+          obtain ⟨hbc, _⟩ := (mem_lat b).mp hbl
+          by_cases hlt : a.length < b.length
+          · simp only [hlt, ↓reduceIte, Option.some.injEq, reduceCtorEq, false_imp_iff, and_true]
+            rintro q rfl
+            refine ⟨hac, Or.inr ⟨hnoprox, ?_⟩⟩
+            intro c hc hne
+            have hm := (mem_lat c).mpr ⟨hc, hnoprox c hc⟩
+            have := hb2 c ((List.mem_erase_of_ne hne).mpr hm)
+            omega
+          · simp only [hlt, ↓reduceIte, reduceCtorEq, false_imp_iff, implies_true, true_and, forall_const]
+            rintro q ⟨hqc, hq⟩
+            rcases hq with ⟨hqp, _⟩ | ⟨_, hq⟩
+            · exact hnoprox q hqc hqp
+            · by_cases e : q = a
+              · subst e
+                have := hq b hbc hbne
+                omega
+              · have h1 := hq a hac (fun h => e h.symm)
+                have h2 := ha2 q ((mem_lat q).mpr ⟨hqc, hnoprox q hqc⟩)
+                omega
+
+/-! group attributes with globals -/
+
+theorem readProp3_writeProps (fieldGrp : Path) (G : List Name) (P : List (Name × Name))
+    (GA : List (Name × Option Name)) (a : Name) :
+    readProp3 (writeProps fieldGrp G P GA) a = alookup P a := by
+  unfold readProp3 writeProps
+  simp only
+  rw [alookup_filter P (fun k => !omitted fieldGrp G GA k) a, alookup_filter P (fun k => G.contains k) a]
+  unfold omitted
+  by_cases hroot : fieldGrp.isEmpty = true
+  · simp only [hroot, ↓reduceIte]
+    by_cases hg : a ∈ G
+    · cases hp : alookup P a <;> simp [hg, alookup]
+    · cases hp : alookup P a <;> simp [hg, alookup]
+  · simp only [hroot, Bool.false_eq_true, ↓reduceIte]
+    rw [alookup_groupWritten]
+    cases hga : alookup GA a with
+    | none =>
+      by_cases hg : a ∈ G
+      · cases hp : alookup P a <;> simp [hg]
+      · cases hp : alookup P a <;> simp [hg]
+    | some v =>
+      cases v with
+      | none => cases hp : alookup P a <;> simp
+      | some gv => cases hp : alookup P a <;> simp
+
 end Cfdm.Groups
